@@ -12,7 +12,7 @@ if ! (cd $tmp/repo && git apply "$patch" 2>/dev/null); then
   (cd $tmp/repo && git apply --3way "$patch" 2>/dev/null) || { echo "patch does not apply"; git -C /repo worktree remove --force $tmp/repo 2>/dev/null; rm -rf $tmp; exit 3; }
   wt=1
 fi
-out=$(bin/stfscheck -p all -tier quick -repo $tmp/repo -verif $tmp/verif 2>&1)
+out=$(${STFSCHECK:-bin/stfscheck} -p all -tier quick -repo $tmp/repo -verif $tmp/verif 2>&1)
 echo "$out" | grep -E "^  (VIOLATED|UNDECIDED)|^BROKEN|^UNRESOLVED" | cut -c1-330
 hit=$(echo "$out" | grep -E "^result C[0-9]+:.*exit=[12]" | sed -E 's/^result (C[0-9]+):.*/\1/' | tr '\n' ' ')
 [ -n "$wt" ] && git -C /repo worktree remove --force $tmp/repo 2>/dev/null
